@@ -117,18 +117,18 @@ Ltac upd_tac ev_lemma gbs_lemma Hp Hy prev y :=
   repeat apply pair_eq; apply arr_eq;
   upd_norm; nmasks; upd_norm; reflexivity.
 
-Lemma update_inst_1 (chi : R) (prev pf y : RL) : length prev = 9%nat -> length y = 19%nat ->
-  @k_update_n1 NumR chi (A prev) (A y) =
+Lemma update_inst_1 (chi : R) (pars prev pf y : RL) : length prev = 9%nat -> length y = 19%nat ->
+  @k_update_n1 NumR chi (A pars) (A prev) (A y) =
     let '(Fb, s) := @update NumR 1 chi {| sn_o := @chunks9 NumR prev 1; sn_f := pf |} y in
     (A Fb, A (concat (sn_o s)), A (sn_f s)).
 Proof. intros Hp Hy. unfold k_update_n1. upd_tac extract_vars_inst_1 apply_gbs_inst_1 Hp Hy prev y. Qed.
-Lemma update_inst_2 (chi : R) (prev pf y : RL) : length prev = 18%nat -> length y = 29%nat ->
-  @k_update_n2 NumR chi (A prev) (A y) =
+Lemma update_inst_2 (chi : R) (pars prev pf y : RL) : length prev = 18%nat -> length y = 29%nat ->
+  @k_update_n2 NumR chi (A pars) (A prev) (A y) =
     let '(Fb, s) := @update NumR 2 chi {| sn_o := @chunks9 NumR prev 2; sn_f := pf |} y in
     (A Fb, A (concat (sn_o s)), A (sn_f s)).
 Proof. intros Hp Hy. unfold k_update_n2. upd_tac extract_vars_inst_2 apply_gbs_inst_2 Hp Hy prev y. Qed.
-Lemma update_inst_3 (chi : R) (prev pf y : RL) : length prev = 27%nat -> length y = 39%nat ->
-  @k_update_n3 NumR chi (A prev) (A y) =
+Lemma update_inst_3 (chi : R) (pars prev pf y : RL) : length prev = 27%nat -> length y = 39%nat ->
+  @k_update_n3 NumR chi (A pars) (A prev) (A y) =
     let '(Fb, s) := @update NumR 3 chi {| sn_o := @chunks9 NumR prev 3; sn_f := pf |} y in
     (A Fb, A (concat (sn_o s)), A (sn_f s)).
 Proof. intros Hp Hy. unfold k_update_n3. upd_tac extract_vars_inst_3 apply_gbs_inst_3 Hp Hy prev y. Qed.
